@@ -211,7 +211,8 @@ def partition_volume(volume: float, *, max_volume: Union[int, float]) -> List[fl
     """
     if volume == 0:
         return []
-    if volume < max_volume:
+    if volume < max_volume or math.isinf(volume):
+        # (an infinite volume cannot be split; the volume checks of the labware refuse it)
         return [volume]
     isteps = math.ceil(volume / max_volume)
     # rounding the step up to whole µL must not exceed a non-integer max_volume
